@@ -51,15 +51,16 @@ def execute(c):
     d = c["sp"][0] / c["sp"][1]
     adj = bool(c["adjust"])
     o = {}
-    o["iso"] = tree_result(lambda: lib.reused(IsometricResampler(d, adjust_last_gap=adj), c, t)(t))
+    o["iso"] = tree_result(lambda: lib.outlives(lib.reused(IsometricResampler(d, adjust_last_gap=adj), c, t), t, c))
     o["same"] = tree_result(lambda: BranchTreeAssembler()(BranchTree.from_tree(t)))
     brs = t.get_branches()
     b1 = min(brs, key=lambda b: int(b.origin_id()[-1]))
-    o["blin"] = pts_result(lambda: BranchLinearResampler(c["n"])(b1))
-    o["biso"] = pts_result(lambda: BranchIsometricResampler(d, adjust_last_gap=adj)(b1))
-    ts = tree_result(lambda: lib.reused(TreeSmoother(c["win"]), c, t)(t))
+    ob = lib.other_branches()           # the same resampler / smoother object goes on to other branches before its first result is read
+    o["blin"] = pts_result(lambda: lib.outlives(BranchLinearResampler(c["n"]), b1, c, ob))
+    o["biso"] = pts_result(lambda: lib.outlives(BranchIsometricResampler(d, adjust_last_gap=adj), b1, c, ob))
+    ts = tree_result(lambda: lib.outlives(lib.reused(TreeSmoother(c["win"]), c, t), t, c))
     o["tsm"] = ts
-    o["bsm"] = pts_result(lambda: BranchConvSmoother(c["win"])(b1))
+    o["bsm"] = pts_result(lambda: lib.outlives(BranchConvSmoother(c["win"]), b1, c, ob))
     return o
 
 
